@@ -16,6 +16,8 @@ Definition c16_nets (cfg : Z) : list auth :=
      | 2 | 7 => [[dc key_laixer_hcu 74; dc key_kuebler_encoder 106; dc key_laixer_hcu 75]]   (* 7: interface dead at the signal *)
      | 3 => [[dc key_kuebler_inclinometer 122; dc key_j1939_ecu 32]]
      | 9 => [[dc key_laixer_hcu 74]; [dc key_volvo_d7e 0]]     (* the engine network stalled for good *)
+     | 12 => [[dc key_laixer_hcu 74]]         (* the runtime in-process: the request arrives DURING start-up (second field: before any service is scheduled /
+                                                 between the services / after all of them) *)
      | _ => [[dc key_laixer_hcu 74; dc key_laixer_vcu 18]]      (* 4: silent units with a timeout; 5: congested bus at start-up *)
      end).
 
@@ -26,7 +28,10 @@ Definition c16_run (l : list Z) : list Z :=
   | cfg :: _ =>
       let resets := flat_map auth_teardown (c16_nets cfg) in
       (* cfg 7: the interface is dead when the request arrives; whether a reset still got out is not determined *)
-      [1; 1; Z.of_nat (length resets)] ++ map (fun _ => if cfg =? 7 then -999999999999 else 1) resets ++ [0]
+      (* cfg 12 with the request before the network service is scheduled: the service is never started (or is stopped at once),
+         so whether a reset is sent is not determined; the run ends in time and nothing follows *)
+      let early := (cfg =? 12) && (match l with _ :: m :: _ => m <? 2 | _ => false end) in
+      [1; 1; Z.of_nat (length resets)] ++ map (fun _ => if (cfg =? 7) || early then -999999999999 else 1) resets ++ [0]
   | [] => bad_case end.
 
 Definition c16_check (l o : list Z) : bool :=
@@ -34,7 +39,7 @@ Definition c16_check (l o : list Z) : bool :=
   | exit_ok :: within :: nh :: rest =>
       (exit_ok =? 1) && (within =? 1)
       && (Z.of_nat (length rest) =? nh + 1)
-      && (match l with 7 :: _ => true | _ =>
+      && (match l with 7 :: _ | 12 :: 0 :: _ | 12 :: 1 :: _ => true | _ =>
           forallb (Z.eqb 1) (firstn (Z.to_nat nh) rest) end)    (* every hydraulic unit got its motion reset (cfg 7: dead interface, cannot) *)
       && (nth (Z.to_nat nh) rest 1 =? 0)                         (* nothing after the daemon has exited *)
   | _ => false end.
